@@ -136,12 +136,12 @@ def relayStep (r : Relay) : Ev → Relay
 /-- the whole connection: peer chunks `cs` (then silence until the deadline, or EOF), the verdict on a complete
 first packet, later events -/
 def run (cs : Chunks) (v : Verdict) (evs : List Ev) : Action × Relay :=
-  let (o, rest) := readFirstPacket cs
-  let a := decideAction o v
-  match a with
+  let o := (readFirstPacket cs).1
+  let rest := (readFirstPacket cs).2
+  match decideAction o v with
   | .web =>
     -- dial; webConn.Write(goWebWrite data); then Copy forwards what is already waiting and what comes later
-    (a, evs.foldl relayStep ⟨true, goWebWrite o.data :: rest, [], true⟩)
-  | _ => (a, ⟨false, [], [], false⟩)
+    (.web, evs.foldl relayStep ⟨true, goWebWrite o.data :: rest, [], true⟩)
+  | a => (a, ⟨false, [], [], false⟩)
 
 end FP
